@@ -29,6 +29,7 @@ import GoZero.C19.InjModel
 import GoZero.C19.Driver
 import GoZero.C19.LinProofs
 import GoZero.C19.Ids
+import GoZero.C19.OutcomeProofs
 namespace GoZero.C19
 open Spec
 
@@ -789,5 +790,138 @@ example : randnFrom 3 (drawsOfInt63 (0 + 63 * 64 + 61 * 64 ^ 2 + 26 * 64 ^ 3)) =
 
 -- hypothesis of `belief_monitor_silent_on_model` is satisfiable: after 0's lease ran out, 1's Acquire succeeds
 example : (step exCfg (run exCfg St.init [.acquire 0, .ft 500]) (.acquire 1)).2 = true := by decide
+
+/-! ### Round 5: every outcome kind at every entry point -/
+
+/-- **A call reports true only on the granting reply, whatever it is handed** (every `Handed` value: replies the
+scripts of the tree never send, `resp == nil` without error, `red.Nil` bare or wrapped, any other error
+including a typed-nil error value): Acquire reports true exactly for the string `OK`, Release exactly for the
+integer 1 ("one key deleted") — and a call that returns an error reports false ("reports false otherwise").
+Tie: `tie_acquireHanded`, `tie_releaseHanded` (the statements of the tree, translated). -/
+theorem call_reports_true_only_on_the_granting_reply (outer : Op) (h : Handed) :
+    ((handedOf outer h).1 = true ↔ grants outer h = true) ∧
+    ((handedOf outer h).2 = true → (handedOf outer h).1 = false) :=
+  handed_true_iff_grants outer h
+
+example : handedOf (.acquire 0) (.reply (.bulk "ok")) = (false, false) ∧
+    handedOf (.acquire 0) (.reply (.int 1)) = (false, false) ∧
+    handedOf (.release 0) (.reply (.bulk "OK")) = (false, false) ∧
+    handedOf (.release 0) (.reply (.int 2)) = (false, false) ∧
+    handedOf (.release 0) (.reply .nil) = (false, true) ∧
+    handedOf (.acquire 0) (.reply .nil) = (false, false) ∧
+    handedOf (.acquire 0) .nilNoErr = (false, false) ∧ handedOf (.release 0) .err = (false, true) ∧
+    handedOf (.acquire 0) (.reply (.status "OK")) = (true, false) ∧
+    handedOf (.release 0) (.reply (.int 1)) = (true, false) := by decide
+
+/-- **A caller's context is all or nothing** (`AcquireCtx(ctx)` / `ReleaseCtx(ctx)`, script cached or not, the
+context dying immediately before ANY round trip `p`, `p = 0`: dead before the call): if it dies before the
+call's script run (before command 1, or between the NOSCRIPT answer and the EVAL) the shared state is untouched
+and the call returns an error; if it dies later the call is not affected at all — it is exactly the model's
+atomic step with the model's result.  There is no third outcome (no half-executed call). -/
+theorem context_cancellation_is_all_or_nothing (cfg : Nat → LockCfg) (st : St) (outer : Op)
+    (ho : isCall outer = true) (cached : Bool) (p : Nat) :
+    (p ≤ realTrips cached →
+      (runCancel real cfg st outer cached p).result = none ∧ (runCancel real cfg st outer cached p).st = st) ∧
+    (realTrips cached < p →
+      (runCancel real cfg st outer cached p).result = some (step cfg st outer).2 ∧
+      (runCancel real cfg st outer cached p).st = (step cfg st outer).1) := by
+  have h := runCancel_real cfg st outer ho cached p
+  rw [callOf_step cfg st outer ho] at h
+  exact h
+
+example : (runCancel real exCfg St.init (.acquire 0) false 2).result = none ∧
+    (runCancel real exCfg St.init (.acquire 0) false 2).sent = 1 ∧
+    (runCancel real exCfg St.init (.acquire 0) false 3).result = some true ∧
+    (runCancel real exCfg St.init (.acquire 0) true 0).result = none ∧
+    (runCancel real exCfg St.init (.acquire 0) true 2).result = some true := by decide
+
+/-- **One public call under everything the environment can do to it** — the whole space of one call of the
+public API: entry point (Acquire / AcquireCtx / Release / ReleaseCtx: `outer` and `env.deadAt`, `none` for the
+wrappers' `context.Background()`), script cached or not, the context dying before any round trip, the Go code
+handed Redis' reply or ANY other value.  (1) the shared state afterwards is the state before (only if the
+context died before the script run) or the model's atomic step — never anything else; (2) the call reports true
+only without an error, and then the reply it was handed is the granting one; handed Redis' own reply, true
+means the model's step succeeded — so every clause proven about `step` (exclusive holder, lease, owner-only
+release) applies to what the caller was told; (3) a call that returns an error reports false. -/
+theorem public_call_all_outcomes (cfg : Nat → LockCfg) (st : St) (outer : Op) (ho : isCall outer = true) (env : Env) :
+    ((publicCall cfg st outer env).1 = st ∨ (publicCall cfg st outer env).1 = (step cfg st outer).1) ∧
+    ((publicCall cfg st outer env).2.1 = true →
+      (publicCall cfg st outer env).2.2 = false ∧
+      (publicCall cfg st outer env).1 = (step cfg st outer).1 ∧
+      (∀ h, env.subst = some h → grants outer h = true) ∧
+      (env.subst = none → (step cfg st outer).2 = true)) ∧
+    ((publicCall cfg st outer env).2.2 = true → (publicCall cfg st outer env).2.1 = false) := by
+  have key : ∀ hd : Handed, hd = env.subst.getD (.reply (scriptReply cfg st outer)) →
+      (handedOf outer hd).1 = true →
+      (handedOf outer hd).2 = false ∧ (∀ h, env.subst = some h → grants outer h = true) ∧
+      (env.subst = none → (step cfg st outer).2 = true) := by
+    intro hd hhd ht
+    have g := handed_true_iff_grants outer hd
+    refine ⟨?_, ?_, ?_⟩
+    · cases he : (handedOf outer hd).2 with
+      | false => rfl
+      | true => rw [g.2 he] at ht; cases ht
+    · intro h hs; rw [hs] at hhd; simp at hhd; rw [← hhd]; exact g.1.1 ht
+    · intro hs; rw [hs] at hhd; simp at hhd
+      rw [hhd, handed_real_reply cfg st outer ho] at ht; exact ht
+  unfold publicCall
+  cases hdead : env.deadAt with
+  | none =>
+    simp only
+    refine ⟨Or.inr trivial, fun ht => ?_, fun he => (handed_true_iff_grants outer _).2 he⟩
+    have k := key _ rfl ht
+    exact ⟨k.1, trivial, k.2.1, k.2.2⟩
+  | some p =>
+    simp only
+    by_cases hp : p ≤ realTrips env.cached
+    · simp [hp]
+    · simp only [hp, if_false]
+      refine ⟨Or.inr trivial, fun ht => ?_, fun he => (handed_true_iff_grants outer _).2 he⟩
+      have k := key _ rfl ht
+      exact ⟨k.1, trivial, k.2.1, k.2.2⟩
+
+example : (publicCall exCfg St.init (.acquire 0) ⟨false, some 2, none⟩).2 = (false, true) ∧
+    (publicCall exCfg St.init (.acquire 0) ⟨true, none, none⟩).2 = (true, false) ∧
+    (publicCall exCfg St.init (.acquire 0) ⟨true, none, some (.reply (.bulk "ok"))⟩).2 = (false, false) ∧
+    (publicCall exCfg St.init (.release 0) ⟨true, some 5, some (.reply .nil)⟩).2 = (false, true) := by decide
+
+/-- **`publicCall` is what the command-level semantics computes**: for the context dimension, the schedule
+`runCancel real` (Cmds.lean round trips) gives exactly `publicCall`'s state and result when the Go code is handed
+Redis' own reply. -/
+theorem public_call_is_the_command_schedule (cfg : Nat → LockCfg) (st : St) (outer : Op) (ho : isCall outer = true)
+    (cached : Bool) (p : Nat) :
+    (runCancel real cfg st outer cached p).st = (publicCall cfg st outer ⟨cached, some p, none⟩).1 ∧
+    (runCancel real cfg st outer cached p).result =
+      (if (publicCall cfg st outer ⟨cached, some p, none⟩).2.2 then none
+       else some (publicCall cfg st outer ⟨cached, some p, none⟩).2.1) := by
+  have h := context_cancellation_is_all_or_nothing cfg st outer ho cached p
+  unfold publicCall
+  by_cases hp : p ≤ realTrips cached
+  · simp [hp, (h.1 hp).1, (h.1 hp).2]
+  · have hp' : realTrips cached < p := by omega
+    simp [hp, (h.2 hp').1, (h.2 hp').2, handed_real_reply cfg st outer ho]
+
+/-- **The lease for EVERY argument of `SetExpire`** (the whole `int` range of the public API, not only
+`0 ≤ s < 2³²`): `SetExpire(s)`, any history in which nobody reconfigures the instance, a successful Acquire,
+anything by the others — the instance holds exactly while less than `uint32(s)·1000 + 500 (+ grace)` ms have
+elapsed.  (For `s` in the `uint32` range `uint32(s) = s`: `configured_lease_end_to_end`.) -/
+theorem configured_lease_every_setExpire_argument (cfg : Nat → LockCfg) (hd : DistinctIds cfg) (st : St) (i : Nat)
+    (s : Int) (mid : List Op) (hmid : ∀ op ∈ mid, keepsSeconds i op = true)
+    (h : (acquire cfg (run cfg (step cfg st (.setExpire i s)).1 mid) i).2 = true)
+    (ops : List Op) (hq : ∀ op ∈ ops, quietFor i op = true) :
+    holds cfg (run cfg (acquire cfg (run cfg (step cfg st (.setExpire i s)).1 mid) i).1 ops) i ↔
+      elapsed ops < toUint32 s * 1000 + 500 + st.store.grace := by
+  have hsec : (run cfg (step cfg st (.setExpire i s)).1 mid).secs i = toUint32 s := by
+    rw [run_secs_keep cfg i mid _ hmid]
+    simp [step, updN]
+  have hg : (run cfg (step cfg st (.setExpire i s)).1 mid).store.grace = st.store.grace := by
+    rw [run_grace, step_grace]
+  have e : acquire cfg (run cfg (step cfg st (.setExpire i s)).1 mid) i =
+      acquireWith cfg (run cfg (step cfg st (.setExpire i s)).1 mid) i (toUint32 s) := by
+    unfold acquire; rw [hsec]
+  rw [e] at h ⊢
+  rw [lease_is_seconds_plus_500ms cfg hd _ i (toUint32 s) h ops hq, hg]
+
+example : toUint32 (-1) = 4294967295 ∧ toUint32 4294967297 = 1 := by decide
 
 end GoZero.C19
